@@ -1,0 +1,10 @@
+//go:build verif
+
+package ring
+
+// Hooks for the verification harness in /verif (build tag "verif"). Add-only: nothing here
+// changes behaviour; each function is a thin exported door onto existing unexported code.
+
+// VerifUpdateRingState feeds a descriptor to the ring client exactly as the KV watch
+// callback of Ring.loop does.
+func (r *Ring) VerifUpdateRingState(d *Desc) { r.updateRingState(d) }
